@@ -135,12 +135,20 @@ def search(job):
             early = validators.validator_for({"$schema": "urn:acme:draft4-plus"})
         if early is not latest:
             fail(what="registration", problem="an unregistered id selected %s" % getattr(early, "__name__", early))
+        probe = {"$schema": "urn:acme:draft4-plus", "const": 1}      # draft 7 enforces const, a draft-4 dialect ignores it
+        with warnings.catch_warnings():
+            warnings.simplefilter("ignore")
+            r_early, _ = via_validate(jsonschema, probe, 2, exceptions)
         meta = dict(classes[4].META_SCHEMA)
         meta["id"] = "urn:acme:draft4-plus"
         New = validators.create(meta_schema=meta, validators=classes[4].VALIDATORS, version="draft4", id_of=classes[4].ID_OF)
         tried += 1
         if validators.validator_for({"$schema": "urn:acme:draft4-plus"}) is not New:
             fail(what="registration", problem="a class registered through create(version=...) is not selectable by its own metaschema id")
+        tried += 1
+        r_late, _ = via_validate(jsonschema, probe, 2, exceptions)
+        if r_early != "invalid" or r_late != "valid":
+            fail(what="registration", schema=probe, instance=2, problem="validate() before / after registering the dialect: %s / %s, expected invalid (latest draft) / valid (the dialect ignores const)" % (r_early, r_late))
         for d, base in IDS.items():
             for sp in (base, base + "#"):
                 tried += 1
